@@ -334,14 +334,19 @@ pub fn late_bool_progs() -> Vec<Prog> {
 pub fn scope_parent_progs() -> Vec<Prog> {
     let rules = vec![RuleSrc::new("jb {a}", "{ assert(a < 6), 0xa @ a`4 }"), RuleSrc::new("jb {a}", "0xb0 @ a`8"), RuleSrc::new("ld {x: u8}", "0x7e @ x"), RuleSrc::new("nop", "0x00")];
     let mut out = vec![];
-    for decoy in [false, true] {
+    for decoy in [0usize, 1, 2] {
         for parent in ["K = 1", "K:", "g2:"] {
             for local in [".v:", ".v = 7", ".v = F", ".v = $"] {
                 for uses in [vec!["ld .v"], vec!["#d8 .v"], vec!["ld .v", "#d8 .v"], vec!["#d8 .v", "ld .v"]] {
                     for pad in 0..=2 {
                         for pad2 in [0usize, 3] {
-                            let mut items = vec![Item::Label("g".into())];
-                            if decoy {
+                            let mut items = vec![];
+                            if decoy == 2 {
+                                // a GLOBAL literal constant with the local's name
+                                items.push(Item::Const("v".into(), "1".into()));
+                            }
+                            items.push(Item::Label("g".into()));
+                            if decoy == 1 {
                                 items.push(Item::Const(".v".into(), "1".into()));
                             }
                             items.push(Item::Instr("jb F".into()));
